@@ -19,7 +19,7 @@ event queries (unfiltered, by emitter, by key, paged) must equal a naive scan of
 """
 import json
 import vlib
-from C03 import behaviours, h4_fixed, note_unreproduced, run_engine_keep, selftest, H4_KEY
+from C03 import behaviours, h4_fixed, note_unreproduced, report_observations, run_engine_keep, selftest, H4_KEY
 
 
 def corrupt_idx(b):
@@ -71,6 +71,7 @@ def run(ctx):
     cres = run_engine_keep(ctx, binary, "TestHistConcurrent",
                            {"behaviours": bs[:nconc], "rounds": 120 if thorough else 40, "readers": 4, "mode": "revert"}, timeout=1500)
     ctx.absorb(cres, "statehist", "TestHistConcurrent")
+    report_observations(ctx, cres)
     ctx.coverage["concurrent_rounds"] = cres.get("replayed", 0)
     # the binding self-test comes last: it can only turn a clean run into Broken, never hide a violation
     if not ctx.violations:
